@@ -28,6 +28,9 @@ def impl_eval(case):
     if ipm:
         objs = [dict(MSGS[i % len(MSGS)]) for i in case['recs']]
         recs = [iso8583.dumps(dict(o)) for o in objs]
+    elif 'hexrecs' in case:
+        recs = [bytes.fromhex(h) for h in case['hexrecs']]
+        objs = recs
     else:
         recs = common.pc_records(case['recs'])
         objs = recs
@@ -115,6 +118,8 @@ def model_line(case):
     b = '1' if case['b'] else '0'
     if case['cls'] == 'ipm':
         recs = [iso8583.dumps(dict(MSGS[i % len(MSGS)])) for i in case['recs']]
+    elif 'hexrecs' in case:
+        recs = [bytes.fromhex(h) for h in case['hexrecs']]
     else:
         recs = common.pc_records(case['recs'])
     return f"vbs.writehex\t{b}\t" + ','.join(r.hex() for r in recs) + f"\t{case['fins']}"
@@ -153,6 +158,14 @@ def explore(run, tier):
                         cases.append({'cls': 'ipm', 'b': b, 'recs': recs, 'fins': fins, 'file': kind})
                         if 'e' in fins and kind == 'mem' and i % 2 == 0:
                             cases.append({'cls': 'ipm', 'b': b, 'recs': recs, 'fins': fins, 'file': kind, 'withstmt': True})
+    # records whose CONTENT looks like framing: four zero bytes (the terminator's bytes), a length prefix, runs of the filler
+    # byte — first, in the middle and last, before every finalisation history of length 1..2
+    for hexrecs in (['00000000', 'c1c2c3'], ['c1', '00000000', 'c2c3'], ['c1c2', '00000000'], ['00000000', '00000000', 'f1'],
+                    ['0000000000', '00'], ['00000005', 'c1c2c3c4c5'], ['40404040', 'c1'], ['40' * 1012, '00000000', 'c1']):
+        for fins in ('c', 'e', 'cc', 'ce', 'ec'):
+            for b in (0, 1):
+                cases.append({'cls': 'vbs', 'b': b, 'recs': [len(h) // 2 for h in hexrecs], 'hexrecs': hexrecs, 'fins': fins,
+                              'file': 'mem'})
     # two writers alive at the same time: a second one is created between two finalisation events of the first
     for fins in ('ce', 'cc', 'ec', 'ee', 'cec', 'ecc'):
         for at in range(1, len(fins)):
